@@ -113,6 +113,9 @@ def run_case(ctx, pydsdl, mon, u, text_ok, seed, nvalues, workdir):
             shutil.rmtree(d, ignore_errors=True)
     else:
         objs = GT.construct_universe(pydsdl, u)
+    if seed % 4 == 0:
+        objs = GT.with_service_sections(pydsdl, u, objs, seed)
+        ctx.cls("service-sections")
     cd = RC.Codec(u)
     nontrivial_sigs = []
     for idx in range(len(u)):
